@@ -33,7 +33,12 @@ pub struct Counted<F> {
 
 impl<F: Future> Counted<F> {
     pub fn new(inner: F, polls: Polls) -> Self {
-        Counted { inner: Box::pin(inner), polls, last_now: tokio::time::Instant::now(), same_instant: 0 }
+        Counted {
+            inner: Box::pin(inner),
+            polls,
+            last_now: tokio::time::Instant::now(),
+            same_instant: 0,
+        }
     }
 }
 
@@ -45,7 +50,10 @@ impl<F: Future> Future for Counted<F> {
         if now == self.last_now {
             self.same_instant += 1;
             if self.same_instant > SPIN_LIMIT {
-                panic!("verif-spin: library task polled {} times without virtual time advancing", self.same_instant);
+                panic!(
+                    "verif-spin: library task polled {} times without virtual time advancing",
+                    self.same_instant
+                );
             }
         } else {
             self.last_now = now;
@@ -74,7 +82,11 @@ pub async fn settle(polls: &Polls) {
 }
 
 pub fn runtime() -> tokio::runtime::Runtime {
-    tokio::runtime::Builder::new_current_thread().enable_time().start_paused(true).build().expect("runtime")
+    tokio::runtime::Builder::new_current_thread()
+        .enable_time()
+        .start_paused(true)
+        .build()
+        .expect("runtime")
 }
 
 /// install (once per process) a tracing subscriber that formats every event into a sink, so that the
@@ -82,7 +94,11 @@ pub fn runtime() -> tokio::runtime::Runtime {
 pub fn init_tracing() {
     static ONCE: std::sync::Once = std::sync::Once::new();
     ONCE.call_once(|| {
-        let sub = tracing_subscriber::fmt().with_max_level(tracing::Level::TRACE).with_writer(std::io::sink).with_ansi(false).finish();
+        let sub = tracing_subscriber::fmt()
+            .with_max_level(tracing::Level::TRACE)
+            .with_writer(std::io::sink)
+            .with_ansi(false)
+            .finish();
         let _ = tracing::subscriber::set_global_default(sub);
     });
 }
